@@ -1398,6 +1398,64 @@ def run_gp_resource_kernel(ctx, specs):
 
 
 # --------------------------------------------------------------------------
+# (c5) several acquisition functions evaluated one after another on SHARED predictor objects
+# --------------------------------------------------------------------------
+def gen_shared_spec(rng, k=None):
+    spec = gen_gp_spec(rng)
+    order = ["cei", "ei", "eipu", "lcb"]
+    rng.shuffle(order)
+    if k is not None and k % 2 == 0:   # CEI (with predicted-infeasible candidates) first, incumbent-based heads afterwards
+        order = ["cei"] + [h for h in order if h != "cei"]
+    spec.update(order=order, explicit=False, refit=False, tail=None, d=max(spec["d"], 1), n=max(spec["n"], 5))
+    return spec
+
+
+def run_shared_sequences(ctx, specs):
+    from scipy.special import ndtr
+    from scipy.stats import norm as _norm
+    import syne_tune.optimizer.schedulers.searchers.bayesopt.models.meanstd_acqfunc_impl as M
+    from syne_tune.optimizer.schedulers.searchers.bayesopt.datatypes.common import INTERNAL_METRIC_NAME, INTERNAL_CONSTRAINT_NAME
+    for spec in specs:
+        case = dict(kind="shared", spec=spec)
+        with warnings.catch_warnings():
+            warnings.simplefilter("ignore")
+            w = np.random.RandomState(spec["seed"] + 7).normal(size=spec["d"])
+            act = build_gp_predictor(spec, INTERNAL_METRIC_NAME, lambda t: 3.0 * float(np.sum(w * t)) + float(np.sum(t * t)))
+            cost = build_gp_predictor(spec, "cost_metric", lambda t: 1.0 + 2.0 * float(t[0]), seed_shift=1)
+            # constraint c(x) = x0 - 0.45: candidates with x0 >= 0.45 are predicted infeasible
+            con = build_gp_predictor(spec, INTERNAL_CONSTRAINT_NAME, lambda t: float(t[0]) - 0.45, seed_shift=2)
+            x = np.array(spec["x"], dtype=float)
+            ctx.count(("shared", spec), nontrivial=True)
+            ctx.h("shared_sequence_first", spec["order"][0])
+            for pos, head in enumerate(spec["order"]):
+                hs = dict(spec, head=head)
+                if head in ("ei", "lcb"):
+                    acq = _make_acq(hs, M, act)
+                elif head == "eipu":
+                    acq = _make_acq(hs, M, ordered({INTERNAL_METRIC_NAME: act, "cost_metric": cost}, spec.get("active_last")))
+                else:
+                    acq = _make_acq(hs, M, ordered({INTERNAL_METRIC_NAME: act, INTERNAL_CONSTRAINT_NAME: con}, spec.get("active_last")))
+                what = "step %d of %s on shared predictors" % (pos + 1, " -> ".join(spec["order"]))
+                v, g = check_acq_gradient(ctx, acq, x, {}, head, case, what)
+                if not (np.isfinite(v) and np.all(np.isfinite(g))):
+                    ctx.violation("property", "%s (%s): value %r / gradient %r not finite" % (head, what, v, np.asarray(g).tolist()),
+                                  case=case, signature=dict(function="compute_acq_with_gradient", head=head, defect="not_finite",
+                                                            sequence="shared predictors", after="cei" if "cei" in spec["order"][:pos] else "-"))
+                    continue
+                if head == "ei":   # closed form from the shared predictor's own predict() / current_best()
+                    pr = act.predict(x.reshape(1, -1))[0]
+                    m_ = np.asarray(pr["mean"], dtype=float).reshape(-1)
+                    sd_ = float(np.asarray(pr["std"]).reshape(-1)[0])
+                    b_ = np.asarray(act.current_best()[0], dtype=float).reshape(-1)
+                    u_ = (b_ - m_ - spec["jitter"]) / sd_
+                    closed = float(np.mean(sd_ * (u_ * ndtr(u_) + _norm.pdf(u_))))
+                    if not abs(-v - closed) <= 1e-6 * abs(closed) + 1e-300:
+                        ctx.violation("property", "ei (%s): -value %r deviates from the closed form %r" % (what, -v, closed), case=case,
+                                      signature=dict(function="compute_acq", head="ei", defect="ei_closed_form_relative",
+                                                     sequence="shared predictors"))
+
+
+# --------------------------------------------------------------------------
 # (a2) explicit predictor argument with locally linear stub predictors (exact Jacobians)
 # --------------------------------------------------------------------------
 def make_linear_stub_class():
@@ -1864,6 +1922,8 @@ def run(ctx, replay=None):
             run_fit_multifidelity(ctx, [replay["spec"]])
         elif kind == "reskernel":
             run_gp_resource_kernel(ctx, [replay["spec"]])
+        elif kind == "shared":
+            run_shared_sequences(ctx, [replay["spec"]])
         return
     n_head = ctx.n(200, 2500)
     specs = [gen_head_spec(rng, head) for head in ("ei", "lcb", "eipu", "cei") for _ in range(n_head)]
@@ -1872,11 +1932,12 @@ def run(ctx, replay=None):
     run_chol(ctx, [gen_chol_spec(rng) for _ in range(ctx.n(200, 2000))])
     run_jitter_forced(ctx, [gen_jitter_spec(rng) for _ in range(ctx.n(100, 1500))])
     run_gp_jitter(ctx, [gen_gp_jitter_spec(rng) for _ in range(ctx.n(6, 40))])
-    run_gp_acq(ctx, [gen_gp_spec(rng) for _ in range(ctx.n(80, 1200))] +
+    run_gp_acq(ctx, [gen_gp_spec(rng) for _ in range(ctx.n(70, 1200))] +
                [gen_gp_tail_spec(rng) for _ in range(ctx.n(25, 400))])
     run_hypertune(ctx, [gen_hypertune_spec(rng, k) for k in range(ctx.n(60, 900))])
     run_indep(ctx, [gen_indep_spec(rng, k) for k in range(ctx.n(30, 500))])
     run_gp_resource_kernel(ctx, [gen_reskernel_spec(rng, k) for k in range(ctx.n(32, 500))])
+    run_shared_sequences(ctx, [gen_shared_spec(rng, k) for k in range(ctx.n(14, 300))])
     run_linear_explicit(ctx, [gen_linear_spec(rng) for _ in range(ctx.n(150, 2000))])
     run_fit_objective(ctx, [gen_fit_spec(rng, k) for k in range(ctx.n(64, 600))])
     run_fit_multifidelity(ctx, [gen_fit_mf_spec(rng, k) for k in range(ctx.n(10, 200))])
